@@ -21,8 +21,8 @@ def incremental(pid, tier, replay):
     if replay:
         return engine.engine_replay(pid, replay)
     fams = _fams(
-        [dict(fam="inc", K=6, CH=4), dict(fam="inc2", K=4, CH=4), dict(fam="partial", K=4, CH=4), dict(fam="rand", K=12, CH=4), dict(fam="editrun", K=2, CH=2)],
-        [dict(fam="inc", K=30, CH=12), dict(fam="inc2", K=20, CH=8), dict(fam="partial", K=20, CH=8), dict(fam="rand", K=80, CH=6), dict(fam="editrun", K=10, CH=4)], tier)
+        [dict(fam="inc", K=6, CH=4), dict(fam="inc2", K=4, CH=4), dict(fam="partial", K=4, CH=4), dict(fam="rand", K=12, CH=4), dict(fam="editrun", K=2, CH=2), dict(fam="restat", K=16, CH=4)],
+        [dict(fam="inc", K=30, CH=12), dict(fam="inc2", K=20, CH=8), dict(fam="partial", K=20, CH=8), dict(fam="rand", K=80, CH=6), dict(fam="editrun", K=10, CH=4), dict(fam="restat", K=120, CH=8)], tier)
     return engine.engine_check(pid, fams, tier, maxruns=16 if tier == "quick" else 64)
 
 
@@ -30,7 +30,7 @@ def incremental(pid, tier, replay):
 def ordering(pid, tier, replay):
     if replay:
         return engine.engine_replay(pid, replay)
-    fams = _fams([dict(fam="sched", K=8, CH=1), dict(fam="inc", K=3, CH=3), dict(fam="dyn", K=1, CH=3), dict(fam="pools", K=1, CH=1)],
+    fams = _fams([dict(fam="sched", K=8, CH=1), dict(fam="inc", K=3, CH=3), dict(fam="dyn", K=1, CH=3), dict(fam="pools", K=1, CH=1), dict(fam="restat", K=6, CH=3)],
                  [dict(fam="sched", K=81, CH=1), dict(fam="inc", K=30, CH=10), dict(fam="dyn", K=1, CH=30), dict(fam="pools", K=8, CH=1), dict(fam="rand", K=100, CH=4)], tier)
     return engine.engine_check(pid, fams, tier, maxruns=64 if tier == "quick" else 2000)
 
